@@ -72,3 +72,9 @@ VARIANTS += [
     dict(id="c03-study-name-not-unique", prop="C03", file=MODELS, expect="R03.6",
          old="        String(MAX_INDEXED_STRING_LENGTH), index=True, unique=True, nullable=False", new="        String(MAX_INDEXED_STRING_LENGTH), index=True, nullable=False"),
 ]
+
+VARIANTS += [
+    dict(id="c03-inmem-copy-after-lock", prop="C03", file=IM, expect="R03.1",
+         old="            if deepcopy:\n                trials = copy.deepcopy(trials)\n            else:\n                # This copy is required for the replacing trick in `set_trial_xxx`.\n                trials = copy.copy(trials)\n\n        return trials\n",
+         new="        if deepcopy:\n            trials = copy.deepcopy(trials)\n        else:\n            # This copy is required for the replacing trick in `set_trial_xxx`.\n            trials = copy.copy(trials)\n\n        return trials\n"),
+]
